@@ -23,7 +23,14 @@ Variable c : ctx.
    segment evaluation taken as ONE step (it emits a ghost observation, may query the provider and may change the status
    register, in that order: an invariant relating them only holds again at the end of the block). *)
 Variable I : st -> Prop.
-Hypothesis I_emit : forall x s, walk_obs x = true -> I s -> I (mkst (s_cache s) (s_status s) (x :: s_trace s)).
+(* W: the observations the walk may emit outside that block; each lemma below depends only on the ones it meets
+   (clause / segment evaluation: segment reads and membership look-ups; flags: also flag reads and events) *)
+Variable W : obs -> bool.
+Hypothesis W_getseg : forall k, W (OGetSegment k) = true.
+Hypothesis W_check : forall k r, W (OBsCheck k r) = true.
+Hypothesis W_getflag : forall k, W (OGetFlag k) = true.
+Hypothesis W_event : forall ev, W (OEvent ev) = true.
+Hypothesis I_emit : forall x s, W x = true -> I s -> I (mkst (s_cache s) (s_status s) (x :: s_trace s)).
 Hypothesis I_log : forall k e s, I s -> I (snd (log o k e s)).
 Hypothesis I_early : forall sg s, I s -> I (snd (seg_early P c sg s)).
 
@@ -35,7 +42,7 @@ Lemma keeps_fail1 {A} : keeps (@out_of_fuel A).
 Proof. intros s H; exact H. Qed.
 Lemma keeps_fail2 {A} : keeps (@panic A).
 Proof. intros s H; exact H. Qed.
-Lemma keeps_emit x : walk_obs x = true -> keeps (emit x).
+Lemma keeps_emit x : W x = true -> keeps (emit x).
 Proof. intros Hx s H. apply I_emit; assumption. Qed.
 Lemma keeps_bind {A B} (m : M A) (f : A -> M B) : keeps m -> (forall a, keeps (f a)) -> keeps (bind m f).
 Proof.
@@ -47,7 +54,7 @@ Proof. intros s H. apply I_log. exact H. Qed.
 Ltac k_tac :=
   repeat first
     [ apply keeps_ret | apply keeps_log | apply keeps_fail1 | apply keeps_fail2
-    | apply keeps_emit; reflexivity
+    | apply keeps_emit; first [apply W_getseg|apply W_check|apply W_getflag|apply W_event]
     | apply keeps_bind; [ | intros ? ] ].
 
 Lemma keeps_first_clause cm cls : (forall cl, keeps (cm cl)) -> keeps (first_clause cm cls).
@@ -58,7 +65,7 @@ Qed.
 Lemma keeps_seg_match_values segc neg vals : (forall sg, keeps (segc sg)) -> keeps (seg_match_values E segc neg vals).
 Proof.
   intros H. induction vals as [|v r IH]; simpl; [apply keeps_ret|]. destruct v; try exact IH.
-  apply keeps_bind; [apply keeps_emit; reflexivity|]. intros _.
+  apply keeps_bind; [apply keeps_emit; first [apply W_getseg|apply W_check|apply W_getflag|apply W_event]|]. intros _.
   destruct (assoc x (e_segments E)); [|exact IH].
   apply keeps_bind; [apply H|]. intros [[|]|e]; try apply keeps_ret. exact IH.
 Qed.
@@ -112,11 +119,11 @@ Qed.
 Lemma keeps_prereq_loop ev f chain' ps : (forall pf, keeps (ev pf)) -> keeps (prereq_loop o E ev f chain' ps).
 Proof.
   intros H. induction ps as [|p rest IH]; cbn [prereq_loop]; [apply keeps_ret|].
-  apply keeps_bind; [apply keeps_emit; reflexivity|]. intros _.
+  apply keeps_bind; [apply keeps_emit; first [apply W_getseg|apply W_check|apply W_getflag|apply W_event]|]. intros _.
   destruct (assoc (pq_key p) (e_flags E)) as [pf|]; [|apply keeps_ret].
   destruct (mem_str (f_key pf) chain'); [k_tac|].
   apply keeps_bind; [apply H|]. intros [d ok]. destruct (negb ok); [apply keeps_ret|].
-  apply keeps_bind; [destruct (o_recorder o); [apply keeps_emit; reflexivity|apply keeps_ret]|]. intros _.
+  apply keeps_bind; [destruct (o_recorder o); [apply keeps_emit; first [apply W_getseg|apply W_check|apply W_getflag|apply W_event]|apply keeps_ret]|]. intros _.
   destruct (_ || _); [apply keeps_ret|exact IH].
 Qed.
 
@@ -171,7 +178,7 @@ Proof. unfold walk_obs. intros H. apply andb_prop in H. exact (proj1 H). Qed.
 
 Theorem keeps_eval_flag_prims fuel chain f s : I s -> I (snd (eval_flag re_ok re_match o E P c fuel chain f s)).
 Proof.
-  apply (keeps_eval_flag re_ok re_match o E P c I).
+  apply (keeps_eval_flag re_ok re_match o E P c I walk_obs); try (intros; reflexivity).
   - intros x s0 Hx H. apply I_emit; [apply walk_is_plain; exact Hx|exact H].
   - exact I_log.
   - exact early_from_prims.
@@ -179,7 +186,7 @@ Qed.
 Theorem keeps_rule_clauses_prims cls s :
   I s -> I (snd (first_clause (clause_match re_ok re_match E c (seg_contains re_ok re_match o E P c (seg_fuel E) [])) cls s)).
 Proof.
-  apply (keeps_rule_clauses re_ok re_match o E P c I).
+  apply (keeps_rule_clauses re_ok re_match o E P c I walk_obs); try (intros; reflexivity).
   - intros x s0 Hx H. apply I_emit; [apply walk_is_plain; exact Hx|exact H].
   - exact early_from_prims.
 Qed.
